@@ -282,7 +282,7 @@ fn cmd_show(args: &[String]) {
     let p = prop_or_die(args.get(2));
     let idx: u64 = args.get(3).and_then(|s| s.parse().ok()).unwrap_or(0);
     let thorough = arg_after(args, "--tier") == Some("thorough");
-    let sc = p.generate(simcore::rng::derive(verif_seed(), idx), thorough);
+    let sc = p.generate_at(idx, simcore::rng::derive(verif_seed(), idx), thorough);
     print!("{}", sc.to_text());
     let mut st = Stats::default();
     println!("# verdict: {:?}", p.check(&sc, &mut st));
@@ -297,7 +297,7 @@ fn cmd_scan(args: &[String]) {
     let thorough = arg_after(args, "--tier") == Some("thorough");
     let mut shown = 0;
     for i in 0..count {
-        let sc = p.generate(simcore::rng::derive(verif_seed(), i), thorough);
+        let sc = p.generate_at(i, simcore::rng::derive(verif_seed(), i), thorough);
         let mut st = Stats::default();
         let v = format!("{:?}", p.check(&sc, &mut st));
         if v.contains(grep) {
